@@ -1,79 +1,80 @@
-//! Trusted model of the aarch64 NEON intrinsics memchr uses (plain Rust over
-//! byte arrays, little endian). Copied into the `neon` pseudo-target as
-//! `crate::verif_emul` by /verif/check; `core::arch::aarch64` is rewritten to
-//! `crate::verif_emul::aarch64`.
+//! FAST model of the aarch64 NEON intrinsics memchr uses: vectors are u128 /
+//! u64 bit-vectors (byte i of the little-endian value is lane i), so CBMC sees
+//! plain bit-vector arithmetic instead of array updates. It is not trusted on
+//! its own: the `emul_equiv_neon` harness proves every function here equal
+//! to the lane-wise reference in neon_ref.rs for all inputs, on every run.
+//! Copied into the `neon` pseudo-target as `crate::verif_emul`.
 
 pub mod aarch64 {
+    const LO7: u128 = 0x7F7F7F7F_7F7F7F7F_7F7F7F7F_7F7F7F7F;
+
     #[derive(Clone, Copy, Debug)]
     #[repr(C, align(16))]
-    pub struct uint8x16_t(pub [u8; 16]);
+    pub struct uint8x16_t(pub u128);
     #[derive(Clone, Copy, Debug)]
     #[repr(C, align(16))]
-    pub struct uint16x8_t(pub [u16; 8]);
+    pub struct uint16x8_t(pub u128);
     #[derive(Clone, Copy, Debug)]
     #[repr(C, align(8))]
-    pub struct uint8x8_t(pub [u8; 8]);
+    pub struct uint8x8_t(pub u64);
     #[derive(Clone, Copy, Debug)]
     #[repr(C, align(8))]
-    pub struct uint64x1_t(pub [u64; 1]);
+    pub struct uint64x1_t(pub u64);
     #[derive(Clone, Copy, Debug)]
     #[repr(C, align(16))]
-    pub struct uint64x2_t(pub [u64; 2]);
+    pub struct uint64x2_t(pub u128);
 
     #[inline(always)]
     pub unsafe fn vdupq_n_u8(b: u8) -> uint8x16_t {
-        uint8x16_t([b; 16])
+        let mut v = b as u128;
+        v |= v << 8;
+        v |= v << 16;
+        v |= v << 32;
+        v |= v << 64;
+        uint8x16_t(v)
     }
 
     /// Unaligned 16-byte load.
     #[inline(always)]
     pub unsafe fn vld1q_u8(p: *const u8) -> uint8x16_t {
-        uint8x16_t(core::ptr::read_unaligned(p as *const [u8; 16]))
+        uint8x16_t(u128::from_le(core::ptr::read_unaligned(p as *const u128)))
     }
 
+    /// Lane-wise equality: 0xFF where equal, 0x00 elsewhere.
     #[inline(always)]
     pub unsafe fn vceqq_u8(a: uint8x16_t, b: uint8x16_t) -> uint8x16_t {
-        let mut o = [0u8; 16];
-        let mut i = 0;
-        while i < 16 {
-            o[i] = if a.0[i] == b.0[i] { 0xFF } else { 0 };
-            i += 1;
-        }
-        uint8x16_t(o)
+        let x = a.0 ^ b.0;
+        // exact zero-byte detector: bit 7 of a lane is set iff the lane is 0
+        let t = !(((x & LO7) + LO7) | x | LO7);
+        // spread bit 7 over the whole lane
+        let mut m = t | (t >> 1);
+        m |= m >> 2;
+        m |= m >> 4;
+        uint8x16_t(m)
     }
 
     #[inline(always)]
     pub unsafe fn vandq_u8(a: uint8x16_t, b: uint8x16_t) -> uint8x16_t {
-        let mut o = [0u8; 16];
-        let mut i = 0;
-        while i < 16 {
-            o[i] = a.0[i] & b.0[i];
-            i += 1;
-        }
-        uint8x16_t(o)
+        uint8x16_t(a.0 & b.0)
     }
 
     #[inline(always)]
     pub unsafe fn vorrq_u8(a: uint8x16_t, b: uint8x16_t) -> uint8x16_t {
-        let mut o = [0u8; 16];
-        let mut i = 0;
-        while i < 16 {
-            o[i] = a.0[i] | b.0[i];
-            i += 1;
-        }
-        uint8x16_t(o)
+        uint8x16_t(a.0 | b.0)
     }
 
     /// Pairwise maximum: lanes 0..8 from adjacent pairs of `a`, 8..16 from `b`.
     #[inline(always)]
     pub unsafe fn vpmaxq_u8(a: uint8x16_t, b: uint8x16_t) -> uint8x16_t {
-        let mut o = [0u8; 16];
+        let mut o: u128 = 0;
         let mut i = 0;
         while i < 8 {
-            let (x, y) = (a.0[2 * i], a.0[2 * i + 1]);
-            o[i] = if x > y { x } else { y };
-            let (x, y) = (b.0[2 * i], b.0[2 * i + 1]);
-            o[8 + i] = if x > y { x } else { y };
+            let x = (a.0 >> (16 * i)) & 0xFF;
+            let y = (a.0 >> (16 * i + 8)) & 0xFF;
+            o |= (if x > y { x } else { y }) << (8 * i);
+            let x = (b.0 >> (16 * i)) & 0xFF;
+            let y = (b.0 >> (16 * i + 8)) & 0xFF;
+            o |= (if x > y { x } else { y }) << (64 + 8 * i);
             i += 1;
         }
         uint8x16_t(o)
@@ -81,22 +82,17 @@ pub mod aarch64 {
 
     #[inline(always)]
     pub unsafe fn vreinterpretq_u16_u8(a: uint8x16_t) -> uint16x8_t {
-        let mut o = [0u16; 8];
-        let mut i = 0;
-        while i < 8 {
-            o[i] = u16::from_le_bytes([a.0[2 * i], a.0[2 * i + 1]]);
-            i += 1;
-        }
-        uint16x8_t(o)
+        uint16x8_t(a.0)
     }
 
     /// Shift right narrow by `n` (a constant at every call site).
     #[inline(always)]
     pub unsafe fn vshrn_n_u16(a: uint16x8_t, n: i32) -> uint8x8_t {
-        let mut o = [0u8; 8];
+        let mut o: u64 = 0;
         let mut i = 0;
         while i < 8 {
-            o[i] = (a.0[i] >> (n as u32)) as u8;
+            let lane = ((a.0 >> (16 * i)) & 0xFFFF) as u64;
+            o |= ((lane >> (n as u32)) & 0xFF) << (8 * i);
             i += 1;
         }
         uint8x8_t(o)
@@ -104,29 +100,21 @@ pub mod aarch64 {
 
     #[inline(always)]
     pub unsafe fn vreinterpret_u64_u8(a: uint8x8_t) -> uint64x1_t {
-        uint64x1_t([u64::from_le_bytes(a.0)])
+        uint64x1_t(a.0)
     }
 
     #[inline(always)]
-    pub unsafe fn vget_lane_u64(a: uint64x1_t, lane: i32) -> u64 {
-        a.0[lane as usize]
+    pub unsafe fn vget_lane_u64(a: uint64x1_t, _lane: i32) -> u64 {
+        a.0
     }
 
     #[inline(always)]
     pub unsafe fn vreinterpretq_u64_u8(a: uint8x16_t) -> uint64x2_t {
-        let mut lo = [0u8; 8];
-        let mut hi = [0u8; 8];
-        let mut i = 0;
-        while i < 8 {
-            lo[i] = a.0[i];
-            hi[i] = a.0[8 + i];
-            i += 1;
-        }
-        uint64x2_t([u64::from_le_bytes(lo), u64::from_le_bytes(hi)])
+        uint64x2_t(a.0)
     }
 
     #[inline(always)]
     pub unsafe fn vgetq_lane_u64(a: uint64x2_t, lane: i32) -> u64 {
-        a.0[lane as usize]
+        (a.0 >> (64 * (lane as u32))) as u64
     }
 }
